@@ -2,6 +2,8 @@ package main
 
 import (
 	"fmt"
+	"os"
+	"path/filepath"
 	"strings"
 )
 
@@ -155,6 +157,35 @@ func c06Judge(c *Ctx, cs *Case) {
 				return
 			}
 		}
+		// P-cliv: the hook-enabled binary must behave identically (hook transparency)
+		// and its streamed event log must satisfy the same nothing-after-the-error order
+		if c.BinVerif != "" && hash64(cs.Src)%6 == 0 {
+			logPath := filepath.Join(c.Scratch, fmt.Sprintf("vhook_%d_%d.log", os.Getpid(), c.Idx()))
+			plain := RunCLI(CLIOpts{Bin: c.Bin, Src: cs.Src, Stdin: cs.Stdin, Dir: c.Scratch})
+			hooked := RunCLI(CLIOpts{Bin: c.BinVerif, Src: cs.Src, Stdin: cs.Stdin, Dir: c.Scratch, Env: []string{"BORNO_VHOOK_LOG=" + logPath, "BORNO_VHOOK_MAXSTEPS=5000000"}})
+			c.Count("cli_runs", 2)
+			logb, _ := os.ReadFile(logPath)
+			os.Remove(logPath)
+			if plain.Stdout != hooked.Stdout || plain.Stderr != hooked.Stderr || plain.Exit != hooked.Exit {
+				c.Inconclusive("hook-enabled binary differs from the plain binary (hooks not transparent): " + trunc(cs.Src, 120))
+				return
+			}
+			seen := false
+			for _, ln := range strings.Split(string(logb), "\n") {
+				f := strings.Split(ln, "\t")
+				if len(f) < 2 {
+					continue
+				}
+				switch {
+				case f[0] == "diag" && f[1] == "runtime":
+					seen = true
+				case seen && (f[0] == "stdout" || f[0] == "input" || (f[0] == "call" && strings.Contains(f[1], "Native"))):
+					c.Violate(Violation{Why: "hook log of the CLI run shows a " + f[0] + " event after the first runtime diagnostic", Observed: trunc(string(logb), 600), Signature: "cliv-event-after-fault"})
+					return
+				}
+			}
+			c.Count("hook_transparency_checked", 1)
+		}
 		c.Nontrivial("cli|" + cs.Src)
 		return
 	}
@@ -247,7 +278,7 @@ func init() {
 		Run:         c06Run,
 		Judge:       c06Judge,
 		MustCount: func(c *Ctx) []string {
-			out := []string{"gen:planted-faults", "gen:planted-faults-cli", "gen:fault-free-controls", "fault_free_programs", "cli_runs"}
+			out := []string{"gen:planted-faults", "gen:planted-faults-cli", "gen:fault-free-controls", "fault_free_programs", "cli_runs", "hook_transparency_checked"}
 			for _, p := range c06Positions() {
 				out = append(out, "pos:"+p.name)
 			}
